@@ -364,8 +364,10 @@ fn walk_leaves<'a>(node: &DefinitionPathNode<'a>, depth: usize, o: &mut Outcome,
   }
   match node {
     DefinitionPathNode::Resolved(DefinitionPathNodeResolved::Link(link)) => {
+      // (a link without continuation yields nothing, which the statement
+      // does not forbid)
       if link.next.is_empty() {
-        vio(o, "C16/goto/link-leads-nowhere", format!("{spec_s}: a path link of symbol {:?} has no continuation and no marker", link.symbol.symbol_id()));
+        o.label("goto-link-without-continuation");
       }
       for n in &link.next {
         walk_leaves(n, depth + 1, o, spec_s, st);
